@@ -2,6 +2,7 @@
    counts are additive.  Statements about the specification of the measurement
    (count / norm_count / loo_count over labelled weighted points, any distance function). *)
 From Verif Require Import Prelude PairCount Invariance InvarianceP Rotation Jackknife InvarianceXP InvarianceSize InvarianceSizeP.
+From Verif Require Import RoundRobin RoundRobinP RoundRobinGraph RoundRobinGraphP.
 From Coq Require Import Permutation.
 Open Scope Q_scope.
 
@@ -481,3 +482,68 @@ Example C13_size_concrete :
   c13_links_case M [(4, 17 # 10, 1, true)] = 0%nat /\ c13_links_case M [(4, 17 # 10, 1, false)] = 2%nat /\
   c13_links_case M [(4, 1 # 10, 1, false)] = 3%nat.
 Proof. vm_compute. repeat split; reflexivity. Qed.
+
+(* ---------- the shape of the patch linkage graph: the job list (Model/RoundRobin.v, Model/RoundRobinGraph.v) ---------- *)
+Open Scope nat_scope.
+(* The patch labels are the positions of the centres in the list handed over.  After a relabelling pi the dictionary of link
+   sets holds the relabelled entries in some order and its sets hand out their elements in some order; the round-robin
+   iterator then lists exactly the relabelled jobs of the cross-correlation, each once - whatever the numbers of links of
+   the patches are (a hub that stays alone in the dictionary for many sweeps, isolated patches, chains) *)
+Theorem C13_jobs_relabel_cross : forall pi st st2a st2 ys ys2,
+  injective pi -> (forall e, In e st -> NoDup (snd e)) ->
+  Permutation (relabel_st pi st) st2a -> Forall2 same_sets st2a st2 ->
+  iter_pairs false st = Some ys -> iter_pairs false st2 = Some ys2 ->
+  Permutation ys2 (map (pmap pi) ys).
+Proof. exact rr_jobs_relabel_cross. Qed.
+Print Assumptions C13_jobs_relabel_cross.
+(* autocorrelation: a job is an unordered pair of patches, kept under (lower label, higher label); with symmetric links the
+   pair {pi a, pi b} is listed after the relabelling exactly when {a, b} was listed before it *)
+Theorem C13_jobs_relabel_auto_members : forall pi st ys ys2 a b,
+  injective pi -> symmetric_st st -> (forall e, In e st -> NoDup (snd e)) -> a <> b ->
+  iter_pairs true st = Some ys -> iter_pairs true (relabel_st pi st) = Some ys2 ->
+  (In (a, b) ys \/ In (b, a) ys <-> In (pi a, pi b) ys2 \/ In (pi b, pi a) ys2).
+Proof. exact rr_jobs_relabel_auto_members. Qed.
+Print Assumptions C13_jobs_relabel_auto_members.
+(* the loop ended when a single key is left ("it has no partner"): a hub with three or more leaves keeps its first two jobs
+   and loses the jobs with all other leaves - documented jobs whose pairs are never counted; which leaves come first is the
+   pop order of the hub's set, a matter of the labels *)
+Theorem C13_stop_at_one_key_star_loses : forall hub a b c rest,
+  NoDup (hub :: a :: b :: c :: rest) ->
+  exists ys, iter_pairs1 false (star_st hub (a :: b :: c :: rest)) = Some ys /\
+    In (hub, a) ys /\ In (hub, b) ys /\
+    (forall l, In l (c :: rest) -> In (hub, l) (jobs_spec false (star_st hub (a :: b :: c :: rest))) /\ ~ In (hub, l) ys) /\
+    ~ Permutation ys (jobs_spec false (star_st hub (a :: b :: c :: rest))).
+Proof. exact rr_stop_at_one_key_star_loses. Qed.
+Print Assumptions C13_stop_at_one_key_star_loses.
+(* ... and its job set is not invariant under a relabelling: the premises of C13_jobs_relabel_cross, the conclusion false *)
+Theorem C13_stop_at_one_key_label_dependent :
+  exists pi st st2a st2 ys ys2,
+    injective pi /\ (forall e, In e st -> NoDup (snd e)) /\
+    Permutation (relabel_st pi st) st2a /\ Forall2 same_sets st2a st2 /\
+    iter_pairs1 false st = Some ys /\ iter_pairs1 false st2 = Some ys2 /\
+    ~ Permutation ys2 (map (pmap pi) ys).
+Proof. exact rr_stop_at_one_key_label_dependent. Qed.
+Print Assumptions C13_stop_at_one_key_label_dependent.
+
+(* hub 0 with the leaves 1, 2, 3 (the dictionary as from_catalogs builds it): the iterator lists the 4 + 6 jobs of the
+   cross-correlation and the 4 + 3 of the autocorrelation, and the checker of the harness accepts them against the
+   brute-force linkage; the loop that stops at one key lists 9: (0, 3) is missing, the checker says so (flag 0), a job
+   listed twice raises flag 1, a job beyond the linkage flag 2.  Exchanging the labels 1 and 3 gives the same sorted
+   dictionary, so the same job (0, 3) is lost - the pair of the hub with the patch that was called 1.  With two leaves
+   nothing is lost: the hub's set is empty when it is left alone. *)
+Example C13_graph_concrete :
+  let st := star_st 0 [1; 2; 3] in
+  iter_pairs false st = Some [(0, 0); (1, 1); (2, 2); (3, 3); (0, 1); (1, 0); (2, 0); (3, 0); (0, 2); (0, 3)] /\
+  iter_pairs1 false st = Some [(0, 0); (1, 1); (2, 2); (3, 3); (0, 1); (1, 0); (2, 0); (3, 0); (0, 2)] /\
+  iter_pairs true st = Some [(0, 0); (1, 1); (2, 2); (3, 3); (0, 1); (0, 2); (0, 3)] /\
+  iter_pairs1 true st = Some [(0, 0); (1, 1); (2, 2); (3, 3); (0, 1); (0, 2)] /\
+  c13_jobs_case false st [(0, 0); (1, 1); (2, 2); (3, 3); (0, 1); (1, 0); (2, 0); (3, 0); (0, 2); (0, 3)] = 0%nat /\
+  c13_jobs_case false st [(0, 0); (1, 1); (2, 2); (3, 3); (0, 1); (1, 0); (2, 0); (3, 0); (0, 2)] = 1%nat /\
+  c13_jobs_case true st [(0, 0); (1, 1); (2, 2); (3, 3); (0, 1); (0, 2); (0, 3)] = 0%nat /\
+  c13_jobs_case true st [(0, 0); (1, 1); (2, 2); (3, 3); (0, 1); (0, 2)] = 1%nat /\
+  c13_jobs_case true st [(0, 0); (1, 1); (2, 2); (3, 3); (0, 1); (0, 2); (0, 3); (0, 1)] = 2%nat /\
+  c13_jobs_case true st [(0, 0); (1, 1); (2, 2); (3, 3); (0, 1); (0, 2); (0, 3); (1, 2)] = 4%nat /\
+  map (pmap swap13) [(0, 1); (0, 2); (0, 3)] = [(0, 3); (0, 2); (0, 1)] /\
+  iter_pairs1 false (star_st 0 [1; 2]) = iter_pairs false (star_st 0 [1; 2]).
+Proof. vm_compute. repeat split; reflexivity. Qed.
+
